@@ -41,6 +41,13 @@ class Layout:
         self.per_line = (ncells + 2) if mode == "list" else 4
         self.nunits = self.per_line * nlines
         self.lines = [(l * self.per_line, (l + 1) * self.per_line) for l in range(nlines)]
+        if mode == "block":
+            # if c0: / a0 / else: / b0   - indentation and line ends are units of their own
+            self.block_units = ["if c0:", "\n", "    ", "a0", "\n", "else:", "\n", "    ", "b0", "\n"]
+            self.nunits = len(self.block_units)
+            self.lines = [(0, 2), (2, 5), (5, 7), (7, 10)]
+            self.ranges = [(5, 7), (7, 9), (2, 4), (8, 9), (3, 4), (7, 10), (2, 5), (7, 7), (10, 10), (5, 5)]
+            return
         if mode == "list":
             pts = [l * self.per_line + j for l in range(nlines) for j in range(1, ncells + 2)]
             self.ranges = [(a, b) for a in pts for b in pts if a <= b]
@@ -50,8 +57,57 @@ class Layout:
                 b = l * 4
                 self.ranges += [(b, b + 3), (b + 1, b + 2), (b, b), (b + 1, b + 1)]
 
+    def forbidden(self):
+        if self.mode != "block":
+            return []
+        out = []
+        for (a, b) in self.ranges:
+            starts_with_ws = a < b and not self.block_units[a].strip()
+            if a < b:
+                out.append((a, b, 0)) if (a, b) != (5, 7) else None      # deletions that would empty a block (pass repair)
+            if not (starts_with_ws and (a, b) in ((7, 9), (2, 4))):
+                out.append((a, b, 2))                                    # Dedent only where it removes indentation in front of code
+        return out
+
+    def ws_units(self):
+        if self.mode != "block":
+            return []
+        return [i + 1 for i, t in enumerate(self.block_units) if not t.strip()]
+
+    def text_of_tokens(self, toks) -> str:
+        """Exact text of a token sequence (block mode: markers are bare names)."""
+        return "".join(self.unit_text(t, set()) if t > 0 else self.marker_text(-t) for t in toks)
+
+    def decode_exact(self, text: str):
+        """Exact (whitespace-sensitive) projection for block mode; units with equal text are told apart by order."""
+        table: Dict[str, List[int]] = {}
+        for u in range(1, self.nunits + 1):
+            table.setdefault(self.unit_text(u, set()), []).append(u)
+        for rank in (1, 3, 4):
+            table.setdefault(self.marker_text(rank), []).append(-rank)
+        keys = sorted(table, key=lambda t: -len(t))
+        out, i, last = [], 0, 0
+        while i < len(text):
+            for t in keys:
+                if text.startswith(t, i):
+                    vals = table[t]
+                    if vals[0] < 0:
+                        v = vals[0]
+                    else:
+                        later = [u for u in vals if u > last]
+                        v = later[0] if later else vals[-1]
+                        last = v
+                    out.append(v)
+                    i += len(t)
+                    break
+            else:
+                return None
+        return out
+
     # unit u is 1-based
     def unit_text(self, u: int, ignored_lines) -> str:
+        if self.mode == "block":
+            return self.block_units[u - 1]
         l, j = divmod(u - 1, self.per_line)
         ign = "pyrefact: ignore " if l in ignored_lines else ""
         if self.mode == "list":
@@ -65,6 +121,8 @@ class Layout:
     def marker_text(self, rank: int) -> str:
         if rank == 0:
             return ""
+        if self.mode == "block":
+            return "(((" if rank == 1 else f"m{rank}"
         if self.mode == "list":
             return "(((, " if rank == 1 else f"m{rank}, "
         return "(((" if rank == 1 else f"m{rank}"
@@ -130,6 +188,7 @@ def cfg_for(layout: Layout, *, payloads, explicit, ignore_sets, max_yields, ngro
         "MC_Lines == " + tla_value([list(l) for l in layout.lines]),
         "MC_RangeSet == " + tla_value({tuple(r) for r in layout.ranges}).replace("(", "<<").replace(")", ">>"),
         "MC_IgnoreSets == {" + ", ".join("{" + ", ".join(str(i + 1) for i in s) + "}" for s in ignore_sets) + "}",
+        "MC_Forbidden == {" + ", ".join(f"<<{a}, {b}, {n}>>" for a, b, n in layout.forbidden()) + "}",
         extra,
         "====", ""])
     cfg = "\n".join([
@@ -144,6 +203,10 @@ def cfg_for(layout: Layout, *, payloads, explicit, ignore_sets, max_yields, ngro
         f"  MaxYields = {max_yields}",
         f"  NGroups = {ngroups}",
         "  MaxIter = 5",
+        f"  Dedent = {2 if layout.mode == 'block' else 0}",
+        "  WsUnits = {" + ", ".join(map(str, layout.ws_units())) + "}",
+        f"  EmitAlts = {'TRUE' if layout.mode == 'block' else 'FALSE'}",
+        "  Forbidden <- MC_Forbidden",
         "INIT Init", "NEXT Next",
         *[f"INVARIANT {i}" for i in invariants],
         "CHECK_DEADLOCK FALSE", ""])
@@ -173,7 +236,7 @@ class Replayer:
 
     def _form(self, lo, hi, new) -> str:
         """Deterministic choice of the yield form for (range, payload) in stmt mode."""
-        if self.layout.mode == "list":
+        if self.layout.mode in ("list", "block"):
             return "text"
         if new == 0 and lo == hi:
             return "text"
@@ -201,6 +264,8 @@ class Replayer:
             lo, hi, new = key
             form = self._form(lo, hi, new)
             text = lay.marker_text(new)
+            if lay.mode == "block" and new == 2:      # Dedent: the same code without its blank units
+                text = "".join(lay.unit_text(u, set()) for u in range(lo + 1, hi + 1) if lay.unit_text(u, set()).strip())
             if form == "text":
                 if lay.mode == "stmt" and lo == hi and lo % 4 == 0 and text:
                     text = text + "\n"
@@ -272,7 +337,7 @@ def judge_with_tlc(rep: Report, layout: Layout, cases: List[dict]) -> List[Tuple
     cfg = "\n".join([
         "CONSTANTS", f"  NUnits = {layout.nunits}", "  Lines <- MC_Lines", "  Brk = 1",
         "  RangeSet = {}", "  Payloads = {}", "  ExplicitTxns = {}", "  IgnoreSets = {}",
-        "  MaxYields = 0", "  NGroups = 1", "  MaxIter = 5",
+        "  MaxYields = 0", "  NGroups = 1", "  MaxIter = 5", "  Dedent = 0", "  WsUnits = {}", "  Forbidden = {}",
         "INIT ObsInit", "NEXT ObsNext", "CHECK_DEADLOCK FALSE", ""])
     res = run_tlc("SchedObsMC", cfg, generated_files={"SchedObsMC.tla": mc, "obs.json": trace},
                   workers=1, env_extra={"OBS_FILE": "obs.json"}, timeout_s=1800)
@@ -304,6 +369,26 @@ def _replay_chunk(args):
             except Exception as exc:  # the scheduler itself raised
                 errors.append({"layout": [layout.mode, layout.nlines, layout.ncells], "entry": entry,
                                "scenario": rec, "error": repr(exc)})
+                continue
+            if layout.mode == "block":
+                # validity of an indentation-sensitive text is the parser's call: TLC gives the splice of the model and every
+                # admissible splice; the harness renders them and lets ast.parse decide between "applied" and "rolled back"
+                def final(toks):
+                    text = layout.text_of_tokens(toks)
+                    try:
+                        ast.parse(text)
+                        return text
+                    except SyntaxError:
+                        return source
+                expected_text = final(rec["splice"])
+                if out == expected_text:
+                    continue
+                admitted = {final(a) for a in rec["alts"]}
+                mismatches.append({
+                    "layout": [layout.mode, layout.nlines, layout.ncells], "entry": entry, "scenario": {k: v for k, v in rec.items() if k != "alts"},
+                    "source": source, "output": out, "observed": layout.decode_exact(out), "expected": rec["splice"],
+                    "expected_text": expected_text, "calls": calls, "expected_calls": 0, "byte_identical": out == source,
+                    "exact": True, "admitted_by_statement": out in admitted})
                 continue
             got = layout.decode(out, ignored_lines)
             want = layout.expected_tokens(rec["result"], ignored_lines)
@@ -350,6 +435,12 @@ def settle_mismatches(rep: Report, layout: Layout, mismatches: List[dict]):
         return
     judgeable, direct = [], []
     for m in mismatches:
+        if m.get("exact"):
+            if m["admitted_by_statement"]:
+                rep.coverage["model_stale_cases"] = rep.coverage.get("model_stale_cases", 0) + 1
+            else:
+                direct.append((m, "the output text is none of the outcomes TLC computed as admissible (AdmissibleSplices, validity by ast.parse)"))
+            continue
         if m["observed"] is None:
             direct.append((m, "output is not a splice of the text units and replacement markers"))
         else:
@@ -390,6 +481,8 @@ def model_runs(t: str):
                                                    max_yields=3, ngroups=2), None))
         runs.append(("list-1x2-y3", L("list", 1, 2), dict(payloads=[0, 2], explicit=[7], ignore_sets=[[]],
                                                      max_yields=3, ngroups=1), None))
+        runs.append(("block-y2", L("block", 4), dict(payloads=[0, 1, 2, 3], explicit=[7], ignore_sets=[[]],
+                                                    max_yields=2, ngroups=1), None))
     else:
         runs.append(("list-2x2-y2", L("list", 2, 2), dict(payloads=[0, 1, 2, 3], explicit=[5, 7], ignore_sets=[[], [0], [1], [0, 1]],
                                                      max_yields=2, ngroups=2), None))
@@ -403,6 +496,8 @@ def model_runs(t: str):
                                                      max_yields=3, ngroups=2), 400000))
         runs.append(("list-1x1-y4", L("list", 1, 1), dict(payloads=[0, 2], explicit=[7], ignore_sets=[[]],
                                                      max_yields=4, ngroups=2), 400000))
+        runs.append(("block-y3", L("block", 4), dict(payloads=[0, 1, 2, 3], explicit=[7], ignore_sets=[[]],
+                                                    max_yields=3, ngroups=2), 400000))
     return runs
 
 
